@@ -53,6 +53,15 @@ def _redshift_histogram(patch: Patch, binning: Binning) -> NDArray:
     return counts[1 : len(edges)].astype(np.float64)
 
 
+def _indexed_redshift_histogram(
+    indexed_patch: tuple[int, Patch], binning: Binning
+) -> tuple[int, NDArray]:
+    """Worker function that additionally passes through the index of the patch,
+    since parallel workers return their results in arbitrary order."""
+    index, patch = indexed_patch
+    return index, _redshift_histogram(patch, binning)
+
+
 def resample_jackknife(observations: NDArray, patch_rows: bool = True) -> NDArray:
     """
     Compute jackknife samples from an array of histogram counts with shape
@@ -127,8 +136,8 @@ class HistData(CorrData):
             config = config.binning
 
         patch_count_iter = parallel.iter_unordered(
-            _redshift_histogram,
-            catalog.values(),
+            _indexed_redshift_histogram,
+            enumerate(catalog.values()),
             func_kwargs=dict(binning=config.binning),
             max_workers=max_workers,
         )
@@ -136,7 +145,7 @@ class HistData(CorrData):
             patch_count_iter = Indicator(patch_count_iter, len(catalog))
 
         counts = np.empty((len(catalog), config.num_bins))
-        for i, patch_count in enumerate(patch_count_iter):
+        for i, patch_count in patch_count_iter:
             counts[i] = patch_count
         parallel.COMM.Bcast(counts, root=0)
 
